@@ -83,6 +83,9 @@ struct SubEvent {
     start: u64,
     end: u64,
     effective: bool,
+    /// for a watch: what the key held the moment the command returned (read while this task still holds the baton, through
+    /// the structures directly, without a yield point: nothing can commit in between)
+    seen_at_ack: Option<String>,
 }
 
 struct SubResult {
@@ -169,10 +172,12 @@ pub fn run_case(ctx: &Ctx, case: &Case) -> Result<Outcome, String> {
                 }
                 t.pause("cmd");
                 let start = t.now();
+                let mut seen: Option<String> = None;
                 match op {
                     S::Watch { k } => {
                         nundb::process_request::process_request(&format!("watch {}", KEYS[*k]), &dbs, &mut s.client);
                         watching[*k] = true;
+                        seen = dbs.map.read().unwrap().get("d").and_then(|d| d.map.read().unwrap().get(KEYS[*k]).map(|v| v.value.clone()));
                     }
                     S::Unwatch { k } => {
                         nundb::process_request::process_request(&format!("unwatch {}", KEYS[*k]), &dbs, &mut s.client);
@@ -190,7 +195,7 @@ pub fn run_case(ctx: &Ctx, case: &Case) -> Result<Outcome, String> {
                     }
                 }
                 let end = t.now();
-                events.push(SubEvent { op: op.clone(), start, end, effective: true });
+                events.push(SubEvent { op: op.clone(), start, end, effective: true, seen_at_ack: seen });
             }
             TaskOut::Sub(SubResult { events, lines: vec![] }, s)
         }));
@@ -291,6 +296,21 @@ pub fn run_case(ctx: &Ctx, case: &Case) -> Result<Outcome, String> {
                 // currency: still subscribed at the end, key written only with set/set-safe
                 let still = intervals.iter().any(|(_, _, us, _)| *us == tend);
                 let only_sets = muts.iter().filter(|m| m.key == k && m.ok).all(|m| m.kind == "set");
+                if still && only_sets {
+                    // the value the key holds now was written once (values are unique). If it is not the value the key held
+                    // when the last watch was acknowledged, it was committed after that acknowledgement, whatever the
+                    // call intervals say: the subscriber must have been told
+                    let last_watch = sub.events.iter().rev().find(|e| matches!(&e.op, S::Watch { k: wk } if *wk == k));
+                    let cur = node.dump().get("d").and_then(|m| m.get(key)).map(|v| v.0.clone()).unwrap_or_default();
+                    if let Some(SubEvent { seen_at_ack: Some(seen), .. }) = last_watch {
+                        let written = muts.iter().any(|m| m.key == k && m.ok && m.value.as_deref() == Some(cur.as_str()));
+                        let told = sub.lines.iter().any(|l| *l == format!("changed {} {}\n", key, cur) || (l.starts_with(&format!("changed-version {} ", key)) && l.ends_with(&format!(" {}\n", cur))));
+                        if written && *seen != cur && !told {
+                            fail = Some(("C03|subscriber-never-told-the-current-value".into(), format!("subscriber {} key {}: when its watch was acknowledged the key held {:?}; it now holds {:?} (committed afterwards) and the subscriber, still subscribed, was never sent it; received {:?}; trace {:?}", si, key, seen, cur, sub.lines, info.trace)));
+                            break 'subs;
+                        }
+                    }
+                }
                 if still && only_sets {
                     let mut best: Option<(i32, Vec<String>)> = None;
                     for l in sub.lines.iter() {
